@@ -16,7 +16,7 @@
                     mixin derives them, with the *intended* validate-then-commit discipline.
                     Named deviations (Dev) switch individual steps to what the code did before
                     the fix: commits (recorded in known_findings.json as fixed).
-   "bad" marks an item of the wrong item type ("item") or whose key has the wrong type ("key");
+   "bad" marks an item of the wrong item type ("item"; "itemk" when its key is nevertheless a good one) or whose key has the wrong type ("key");
    they only occur in actions against typed containers. *)
 EXTENDS Integers, Sequences, FiniteSets
 
